@@ -652,7 +652,7 @@ pub fn run_session(s: &Session, keep_log: bool) -> History {
                 let stuck = st
                     .threads
                     .values()
-                    .any(|t| matches!(t.status, Status::BlockedOnSnapshots | Status::BlockedReal) || (t.status == Status::Parked && !t.is_main));
+                    .any(|t| matches!(t.status, Status::BlockedOnSnapshots | Status::BlockedReal | Status::Unstarted) || (t.status == Status::Parked && !t.is_main));
                 if stuck {
                     h.deadlock = Some(st.describe());
                 } else {
@@ -756,10 +756,13 @@ pub fn run_session(s: &Session, keep_log: bool) -> History {
     let patience = if h.main_final == "Parked@idle" && h.unread_input > 0 && h.stall.is_none() {
         // the main loop has stopped reading; end of input will not reach it either
         2
+    } else if h.deadlock.is_some() && h.stall.is_none() {
+        // everything is parked or blocked according to the model: a short confirmation will do
+        3
     } else {
         20
     };
-    let drained = core.wait_all_done(Duration::from_millis(if patience == 2 { 300 } else { 20_000 }));
+    let drained = core.wait_all_done(Duration::from_millis(match patience { 2 => 300, 3 => 3_000, _ => 20_000 }));
     if !drained {
         // a second nudge: the main loop may have parked between close and wake
         pipe.wake();
@@ -816,6 +819,7 @@ pub fn run_session(s: &Session, keep_log: bool) -> History {
             ("edit_stored_while_task_in_query", p.edit_stored_while_task_in_query),
             ("store_read_inside_update_window", p.store_read_inside_update_window),
             ("task_end_after_later_task_exit", p.task_end_after_later_task_exit),
+            ("spawned_task_not_started_in_time", p.spawned_thread_not_started),
         ] {
             h.probes.insert(k.into(), v);
         }
